@@ -36,7 +36,7 @@ def run(ctx):
             val = rnd.choice(VALS[name])
             sub = subst_var(body, name, val)
             # the name itself is arbitrary text without blanks, parentheses, comma or '=': dots, '#', '-' and letters outside ASCII are part of it
-            nn = rnd.choice([name, name, 'v.1', 'a#b', 'x-y', 'é', '_n', 'N2', 'v.name', 'x#0'])
+            nn = rnd.choice([name, name, 'v.1', 'a#b', 'x-y', 'é', '_n', 'N2', 'v.name', 'x#0', 'index', 'value', 'key', 'so_far', 'item', 'input', 'm'])      # also names a binder might be tempted to use itself
             rbody = re.sub(r':%s\b' % name, ':' + nn, body).replace('"%s"' % name, '"%s"' % nn) if name == 'x' else body
             rn = nn if name == 'x' else name
             if kind == 'set': a = lib.new_cfg(select=['(set "%s" %s %s)=r' % (rn, val, rbody)])
